@@ -1,5 +1,6 @@
 import Proofs.Lemmas.Ctx
 import Proofs.Properties.C07
+import Proofs.Lemmas.C02Committee
 /-!
 # C08 — the incrementally maintained epochs context always matches the state
 
@@ -275,10 +276,10 @@ Then zrnt's lookups on `cM` — `GetBeaconCommittee` for every slot of the previ
 committee index, `GetBeaconProposer` for every slot of the current epoch — return exactly what `c` holds. Hence
 what the incrementally maintained context answers is what a from-scratch zrnt context answers, and both are the
 specification's `get_beacon_committee` / `get_beacon_proposer_index` (`ctx_answers_eq_spec`, C07
-`ctx_committee_eq_spec`, `ctx_proposer_eq_spec_partial`). `hH`: the hash returns 32 bytes (true of SHA-256; the
-transcription in `Zrnt/Sha256.lean` is not proved to, so it is a hypothesis here as in C06/C07). -/
+`ctx_committee_eq_spec`, `ctx_proposer_eq_spec_partial`). The hypothesis of C06/C07 that the hash returns 32 bytes is
+discharged for the SHA-256 transcription by `spec_hash_size`. -/
 theorem live_ctx_answers_eq_zrnt_ctx {cfg : Config} {st : State} {c : Ctx}
-    (hH : ∀ x, (Spec.hash x).size = 32) (ok : CfgOK (cfgC cfg)) (hsrc : cfg.SHUFFLE_ROUND_COUNT ≤ 255)
+    (ok : CfgOK (cfgC cfg)) (hsrc : cfg.SHUFFLE_ROUND_COUNT ≤ 255)
     (hmaxc : 0 < cfg.MAX_COMMITTEES_PER_SLOT) (hv : st.validators.length ≤ 2 ^ 40)
     (hc : ctxOf cfg st = .ok c)
     (cM : Committees.Ctx)
@@ -289,6 +290,7 @@ theorem live_ctx_answers_eq_zrnt_ctx {cfg : Config} {st : State} {c : Ctx}
         cM.getBeaconCommittee (cfgC cfg) (sh.epoch * cfg.SLOTS_PER_EPOCH + s) index = .ok committee) ∧
     (∀ s, s < cfg.SLOTS_PER_EPOCH → ∃ r, c.proposers.proposers[s]? = some r ∧
       cM.getBeaconProposer (cfgC cfg) (get_current_epoch cfg st * cfg.SLOTS_PER_EPOCH + s) = .ok r) := by
+  have hH : ∀ x, (Spec.hash x).size = 32 := Zrnt.Proofs.Lemmas.spec_hash_size
   have hspe : 0 < cfg.SLOTS_PER_EPOCH := ok.spe_pos
   obtain ⟨hcomm, hprop⟩ := ctx_answers_eq_spec hspe hc
   obtain ⟨h1, h2, h3, _⟩ := ctxOf_ok hc
@@ -326,6 +328,48 @@ theorem live_ctx_answers_eq_zrnt_ctx {cfg : Config} {st : State} {c : Ctx}
     cases hspec
     rw [hcur, show (cfgC cfg).SLOTS_PER_EPOCH = cfg.SLOTS_PER_EPOCH from rfl]
     exact hp
+
+open Zrnt.Proofs.Committees in
+/-- **The sync-committee part, composed with C07.** Let `st0` be the state at which a sync committee was computed
+(the altair upgrade or a period boundary) with an active validator of maximal effective balance in the committee's
+base epoch. Then (C07 `syncIndices_eq_spec`) zrnt's `ComputeSyncCommitteeIndices` model and the specification's
+`get_next_sync_committee_indices` return the same `SYNC_COMMITTEE_SIZE` indices `l`; and for every later state `st`
+that stores the pubkeys of those validators as one of its sync committees (registry without repeated pubkeys, `l`
+within the registry), the context of `st` — by `chain_ctx_invariant` the live context — holds exactly the indices `l`
+for that committee: the pubkey → index hydration of `LoadSyncCommittees` / `RotateEpochs` inverts the index → pubkey
+step of `get_next_sync_committee`. -/
+theorem ctx_sync_indices_eq_spec {cfg : Config} {st0 st : State} {c : Ctx}
+    (hsrc : cfg.SHUFFLE_ROUND_COUNT ≤ 255) (hv0 : st0.validators.length ≤ 2 ^ 40)
+    (hne : 0 < (Committees.activeIndices (valsC st0).toArray (st0.slot / (cfgC cfg).SLOTS_PER_EPOCH + 1)).size)
+    (hm : HasMaxBalance (cfgC cfg) (valsC st0).toArray
+      (Committees.activeIndices (valsC st0).toArray (st0.slot / (cfgC cfg).SLOTS_PER_EPOCH + 1)))
+    (fuel : Nat)
+    (hf : (cfgC cfg).SYNC_COMMITTEE_SIZE *
+      (Committees.activeIndices (valsC st0).toArray (st0.slot / (cfgC cfg).SLOTS_PER_EPOCH + 1)).size + 1 ≤ fuel)
+    (hc : ctxOf cfg st = .ok c) (hnd : (st.validators.map (·.pubkey)).Nodup) :
+    ∃ l, Committees.Spec.get_next_sync_committee_indices Spec.hash (cfgC cfg) (valsC st0) (mixesC st0) st0.slot fuel = .ok l ∧
+      l.length = cfg.SYNC_COMMITTEE_SIZE ∧
+      Committees.computeSyncCommitteeIndices Spec.hash (cfgC cfg) (valsC st0).toArray (mixesC st0) st0.slot
+        (st0.slot / (cfgC cfg).SLOTS_PER_EPOCH + 1)
+        (Committees.activeIndices (valsC st0).toArray (st0.slot / (cfgC cfg).SLOTS_PER_EPOCH + 1)) fuel = .ok l.toArray ∧
+      ((∀ i ∈ l, i < st.validators.length) → ∀ sc : SyncCommittee,
+        sc.pubkeys = l.map (fun i => (st.validators.getD i default).pubkey) →
+        (st.current_sync_committee = some sc → c.syncCurrent = some ⟨l, sc.pubkeys⟩) ∧
+        (st.next_sync_committee = some sc → c.syncNext = some ⟨l, sc.pubkeys⟩)) := by
+  have hsz : (valsC st0).toArray.size ≤ 2 ^ 40 := by simp [valsC, hv0]
+  have sok := sampleOK_active (H := Spec.hash) Zrnt.Proofs.Lemmas.spec_hash_size (cfg := cfgC cfg) hsrc (valsC st0).toArray hsz _ hne
+  obtain ⟨l, hs, hlen, hcode⟩ := Zrnt.Proofs.C07.syncIndices_eq_spec (mixesC st0) st0.slot sok hm fuel hf
+  refine ⟨l, by simpa using hs, hlen, hcode, ?_⟩
+  intro hl sc hpk
+  obtain ⟨_, _, _, _, h5, h6, _⟩ := ctxOf_ok hc
+  have hyd := syncOfOpt_of_indices hnd l hl sc hpk
+  constructor
+  · intro hcur
+    rw [hcur, hyd] at h5
+    exact (Except.ok.inj h5).symm
+  · intro hnext
+    rw [hnext, hyd] at h6
+    exact (Except.ok.inj h6).symm
 
 /-- non-vacuity: a state is related to itself (nothing written), for every epoch -/
 example (cfg : Config) (N : Nat) (st : State) : EpochWrites cfg N st st where
